@@ -20,7 +20,7 @@ LEVEL = 'other'
 MANIFEST = {
     'engine': 'pysym',
     'level': 'other',
-    'technique': 'symbolic execution of both name resolvers against one specification and against each other (relational obligation), with uninterpreted lower() / catalog membership; metamorphic plan checks as bounded stand-in',
+    'technique': 'symbolic execution of both name resolvers against one specification and against each other (relational obligation), with uninterpreted lower() / catalog membership; sub-select inlining decision by case analysis over integration sets; metamorphic plan checks and a per-fetch foreign-table oracle as bounded stand-in',
     'text': 'The two resolvers, the predictor lookup, the qualifier-stripping callback and the catalog normalisation are proved against '
             'their specifications for all identifiers and catalogs; agreement of the two resolvers is a relational obligation over the '
             'real bodies. Routing over all table positions additionally depends on the walker (C13 findings are inherited, bounded here).',
